@@ -21,7 +21,14 @@ func genC01(r *rand.Rand, t *Trace, thorough bool) {
 		}
 		// every third history re-adds removed ids, some of them with a vector the index rejects: a rejected
 		// re-add must not bring the removed vector back (C01: a removed vector never appears)
-		c := runVecHistory(r, p, vecHistOpts{nops: nops, allowReuse: it%3 == 1, fine: it%4 == 3}, t)
+		o := vecHistOpts{nops: nops, allowReuse: it%3 == 1, fine: it%4 == 3}
+		if it%10 == 6 {
+			o.forceStyle, o.fine = 5, false // huge magnitudes: distances that overflow to +Inf are still returned, last
+			if p.metric == 2 {
+				p.metric = r.Intn(2)
+			}
+		}
+		c := runVecHistory(r, p, o, t)
 		t.Emit(c, "flat.metric."+string(metrics[p.metric]))
 	}
 }
